@@ -295,12 +295,12 @@ def hooks_with_payload(d):
 
 # ---------------------------------------------------------------- name pools
 
-STATE_POOL = ['A', 'B', 'D', 'E', 'F', 'Idle', 'Active', 'HTTPServer', 'Phase2', 'X1', 'IOWait', 'Zed', 'Q',
+STATE_POOL = ['A', 'B', 'D', 'E', 'F', 'Idle', 'Active', 'HTTPServer', 'Phase2', 'X1', 'IOWait', 'Zed', 'Q', 'Écluse', 'ÉtatFinal',
               'InFlight', 'Running', 'Done', 'K9', 'LaunchPrep', 'Off', 'On']
 SUPER_POOL = ['G', 'H', 'J', 'Grp', 'Outer', 'Inner', 'Flight', 'Mode2', 'Sub', 'Top']
 EVENT_POOL = ['go', 'stop', 'tick', 'enter_half_open', 'http_request', 'e1', 'reset', 'a_1', 'set_thrust',
               'launch', 'x', 'step2', 'io_done', 'next', 'abort', 'b2b', 'enable_2fa', 'x_y', 'step_2', 'go_2_x',
-              'send_3ds_challenge', 'a_b_c']
+              'send_3ds_challenge', 'a_b_c', 'démarrer', 'öffne_tür']
 NAME_POOL = ['M', 'Machine1', 'FlightDeck', 'HTTPClient', 'Sm', 'Ctl', 'LinkState', 'DoorEvent', 'AnyThing', 'DynamicDuo', 'StateOf', 'EventLog', 'Any', 'Dynamic']
 DATA_TYPES = ['D0', 'D1', 'D2', 'D3']
 
